@@ -85,8 +85,9 @@ FirstLevel(g, weighted, order, res) ==
 (* binding of the mechanism to the code: the first returned level is the result of the
    local-move phase for the visiting order the library derives from the seed *)
 MechChecks(g, a) ==
-  <<<<"first_level_is_local_move_fixpoint", \A i \in DOMAIN a.runs :
-        LET r == a.runs[i] IN
-        (r.ans.e = "" /\ ~g.specs.multi /\ Len(r.ans.v) >= 1 /\ r.seed >= 0 /\ Keys(g) # {}) =>
-           FamSet(r.ans.v[1]) = FirstLevel(g, r.weighted, r.order, r.res)>>>>
+  [i \in DOMAIN a.runs |->
+     <<"first_level_is_local_move_fixpoint_run" \o ToString(i),
+       LET r == a.runs[i] IN
+       (r.ans.e = "" /\ ~g.specs.multi /\ Len(r.ans.v) >= 1 /\ r.seed >= 0 /\ Keys(g) # {}) =>
+          FamSet(r.ans.v[1]) = FirstLevel(g, r.weighted, r.order, r.res)>>]
 =============================================================================
